@@ -569,6 +569,15 @@ def _step_counter(ctx, rep) -> None:
             if isinstance(tgt, ast.Attribute) and tgt.attr == "_per_group_state_lists" and n.value is not None:
                 v = n.value
                 ok = isinstance(v, ast.ListComp) and isinstance(v.elt, (ast.Dict, ast.Call))
+                if not ok and isinstance(v, ast.List) and not v.elts:
+                    # the attribute itself starts empty and receives one `{}` per iteration of a loop
+                    apps = [c for c in A.calls(init.node) if isinstance(c.func, ast.Attribute) and ast.unparse(c.func.value) == ast.unparse(tgt)]
+                    ok = len(apps) == 1 and apps[0].func.attr == "append" and len(apps[0].args) == 1 and (isinstance(apps[0].args[0], ast.Dict) or (isinstance(apps[0].args[0], ast.Call) and ast.unparse(apps[0].args[0].func) == "dict")) and bool(A.enclosing_loops(init.node, apps[0]))
+                if not ok and isinstance(v, ast.Name):
+                    # `xs = []` filled by `xs.append({})` inside a loop, then stored: one fresh dict per iteration as well
+                    inits = A.assignments_to(init.node, v.id)
+                    apps = [c for c in A.calls(init.node) if isinstance(c.func, ast.Attribute) and isinstance(c.func.value, ast.Name) and c.func.value.id == v.id]
+                    ok = len(inits) == 1 and isinstance(inits[0], ast.List) and not inits[0].elts and len(apps) == 1 and apps[0].func.attr == "append" and len(apps[0].args) == 1 and (isinstance(apps[0].args[0], ast.Dict) or (isinstance(apps[0].args[0], ast.Call) and ast.unparse(apps[0].args[0].func) == "dict")) and bool(A.enclosing_loops(init.node, apps[0]))
                 rep.ob("C01.4", "per-group-state:fresh-dict-per-group", ok, init.loc(n), f"`{ast.unparse(v)}` must create one dict per group (a list multiplication would share one dict between groups)", sample=True)
 
 
